@@ -1177,6 +1177,17 @@ def _ss_plan_commit(ctx):
     return goals
 
 
+def _ss_plan_commits_nothing(ctx):
+    """C01/RES: between the claim commit and the plan commit nothing else becomes durable.  _plan_stage persists the synthetic
+    stages its builder creates through repository.add_stage -- a commit of its own (the assumed contract of _plan_stage mirrors
+    that loop of the real function as one standalone effect) -- so a crash after it leaves a claimed parent whose own planning
+    is never repeated (zombie re-plan requires 'no synthetic stages'): finding D7."""
+    bad = [e for e in ctx.st.effects if e.kind == "standalone" and e.data["op"] == "plan_synthetic_stages"]
+    if not any(e.kind == "plan" for e in ctx.st.effects):
+        return []
+    return [("", z3.BoolVal(not bad))]
+
+
 def _ss_bypass_consumed(ctx):
     """C03: the jump bypass is one-shot -- no commit of the start handler leaves _jump_bypass set in the durable context
     of the stage it handles (otherwise a later, ordinary start of that stage would skip its join condition)."""
@@ -1212,6 +1223,8 @@ def start_stage():
         Obl("C09/T1/StartStage", P.t1_processed_with_effects(_ss_t1_exempt), when="any"),
         Obl("C01/T7/StartStage", P.t7_no_split, when="any"),
         Obl("C01/RES/StartStage.plan-commit", _ss_plan_commit, when="any"),
+        Obl("C01/RES/StartStage.planning-commits-nothing-on-its-own", _ss_plan_commits_nothing, when="any",
+            scenario="d7_crash_between_add_stage_and_plan_commit.py"),
         Obl("C05/T2/StartStage", _ss_plan_commit, when="any"),
         Obl("C06/T3/StartStage", P.t3_legal_write(), when="any"),
         Obl("C06/stage-never-redirect/StartStage", P.stage_status_never_redirect, when="any"),
@@ -1977,6 +1990,65 @@ def STuple_(items):
 
 
 ALL += [check_jump_count_unit, apply_jump_unit]
+
+
+# ----------------------------------------------------------------------------- the three remaining message handlers
+def _cancel_region_post(ctx):
+    """CancelRegion: one commit; CancelStage exactly for the stages of the named region that have not finished."""
+    I = ctx.I
+    goals = [("single-commit", z3.BoolVal(P.state_changing_commits(ctx) <= 1))]
+    ex = loaded_execution(ctx)
+    if ex is None:
+        return goals
+    for n, (e, g) in enumerate(P.pushes(ctx, "CancelStage")):
+        goals.append((f"cancel{n}.only-unfinished-stage-of-the-region", z3.Implies(g, ctx.ev(
+            "exists(execution.stages, lambda s: s.id == m.stage_id and s.cancel_region == message.region and not s.status.is_complete)",
+            {"execution": ex, "m": e.data["msg"], "message": ctx.extra["message"]}))))
+    return goals
+
+
+def cancel_region():
+    obls = [
+        Obl("C17/cancel-region", _cancel_region_post, when="any"),
+        Obl("C01/T1/CancelRegion", P.t1_processed_with_effects(), when="any"),
+        Obl("C02/T1/CancelRegion", P.t1_processed_with_effects(), when="any"),
+        Obl("C09/T1/CancelRegion", P.t1_processed_with_effects(), when="any"),
+        Obl("C01/T6/CancelRegion", P.t6_single_commit(), when="any"),
+        Obl("C01/T7/CancelRegion", P.t7_no_split, when="any"),
+        Obl("C06/T3/CancelRegion", P.t3_legal_write(), when="any"),
+    ]
+    return handler_unit("*", "L2/CancelRegion", H + "cancel_region:CancelRegionHandler", "CancelRegion", obls, registry=run_task_registry())
+
+
+def _ami_post(ctx):
+    """AddMultiInstance writes the parent only while it has not finished and never changes its status."""
+    I = ctx.I
+    goals = []
+    for n, (e, g) in enumerate(P.stores(ctx, committed_only=False)):
+        ld, snap = e.data.get("loaded") or {}, e.data["snap"]
+        if "status" in ld:
+            goals.append((f"store{n}.status-unchanged", z3.Implies(g, snap["status"].t == ld["status"].t)))
+            goals.append((f"store{n}.parent-not-finished", z3.Implies(g, z3.Not(is_complete(I, ld["status"].t)))))
+    return goals
+
+
+def add_multi_instance():
+    obls = [
+        Obl("C06/frame/AddMultiInstance", _ami_post, when="any"),
+        Obl("C06/T3/AddMultiInstance", P.t3_legal_write(), when="any"),
+        Obl("C06/stage-never-redirect/AddMultiInstance", P.stage_status_never_redirect, when="any"),
+        Obl("C09/T1/AddMultiInstance", P.t1_processed_with_effects(), when="any"),
+        Obl("C02/T1/AddMultiInstance", P.t1_processed_with_effects(), when="any"),
+        Obl("C01/T6/AddMultiInstance", P.t6_single_commit(), when="any", scenario="d12_add_multi_instance_not_atomic.py"),
+    ]
+    reg = run_task_registry()
+    reg.appendable_stages = True
+    return handler_unit("*", "L2/AddMultiInstance", H + "add_multi_instance:AddMultiInstanceHandler", "AddMultiInstance", obls, registry=reg)
+
+
+# StartWaitingWorkflowsHandler (promotion of BUFFERED workflows when a concurrency slot frees up) is NOT under contract: it opens
+# one transaction per element inside a loop over a store query, which the trace views do not represent (DESIGN 9.3, C05/C06 notes).
+ALL += [cancel_region, add_multi_instance]
 
 
 # ----------------------------------------------------------------------------- recovery (C10, C01/REC)
